@@ -44,8 +44,18 @@ type byteReader struct {
 
 func (r *byteReader) ReadByte() (byte, error) {
 	var buff = [1]byte{}
-	_, err := r.Read(buff[:])
-	return buff[0], err
+	for {
+		n, err := r.Read(buff[:])
+		if n > 0 {
+			// a byte delivered together with an error (e.g. io.EOF) is still a byte of the
+			// stream: the error shows up again on the next call
+			return buff[0], nil
+		}
+		if nil != err {
+			return 0, err
+		}
+		// (0, nil): nothing was read, try again
+	}
 }
 
 // ExactReader returns a Reader that reads exactly n bytes from r. Unlike io.LimitReader it does
